@@ -318,6 +318,10 @@ func (o *c06Oracle) after(ch *chain, ci *callInfo) *Violation {
 			if m.Value.LT(sdk.NewInt(minStake)) {
 				return violf("C06/stake-below-minimum-accepted", "%s: MsgStake of %s accepted below the minimum %d", where, m.Value, minStake)
 			}
+			// "by its own funded stake": the record holds what this message funded, nothing inherited
+			if !av.StakedTokens.Equal(m.Value) {
+				return violf("C06/stake-not-what-was-funded", "%s: validator %s staked %s and is recorded with %s (its record held %s before)", where, a, m.Value, av.StakedTokens, bv.StakedTokens)
+			}
 			o.transitions[a]++
 		case hadB && hasA && bv.Status == sdk.Staked && av.Status == sdk.Unstaking:
 			if _, ok := ci.Built.msgUnstake(); !signerIs() || !ok {
